@@ -28,7 +28,7 @@ RULE = (
     "alone, or interleaved with include (with/without context, name lists, ignore missing, inside loops) / import / from-import "
     "of a macro library, or as block bodies of a 2-3 level extends chain with super()/self.block() calls; data makes some "
     "pieces empty and some non-ASCII. Every entry point (render, generate, stream unbuffered and buffered with every size "
-    "2..8, dump to path / BytesIO / StringIO with 2 drawn stateless codecs, make_module, template.module; the async "
+    "2..8, dump to path / BytesIO / StringIO with 2 codecs drawn from 11 codec/error-handler pairs incl. BOM codecs, make_module, template.module; the async "
     "counterparts in an async environment) is compared with render, and the buffered chunks with the chunk rule. "
     "Non-trivial = the piece list of generate() has at least 3 non-empty pieces and at least one empty piece (so that for "
     "size 2 a non-final chunk exists and empty pieces matter); distinct = distinct case."
@@ -36,15 +36,18 @@ RULE = (
 ASSUMPTIONS = [
     "generate() itself defines the pieces (the chunk rule is checked relative to them); render is the reference text",
     "templates are deterministic (no random / time / id in output), so separate renderings are comparable",
-    "dump codecs are stateless per piece (utf-8, utf-16-le, utf-32-be, latin-1/ascii with xmlcharrefreplace or replace); "
-    "codecs that emit a BOM per encode call (utf-16, utf-32, utf-8-sig) are the known finding F29 and are only replayed",
+    "dumped bytes must equal render().encode(codec, errors) for BOM-less codecs; for utf-16 / utf-32 / utf-8-sig the bytes "
+    "must decode to the rendered text (whether an empty text gets a BOM is not specified)",
     "error agreement is by exception type",
 ]
 
 SIZES = (2, 3, 4, 5, 6, 7, 8)
-SAFE_CODECS = (("utf-8", "strict"), ("utf-16-le", "strict"), ("utf-16-be", "strict"), ("utf-32-be", "strict"),
-               ("latin-1", "xmlcharrefreplace"), ("ascii", "replace"), ("ascii", "ignore"), ("cp1252", "backslashreplace"))
-BOM_CODECS = ("utf-16", "utf-32", "utf-8-sig", "utf_16", "utf_32", "u16", "u32")
+CODECS = (("utf-8", "strict"), ("utf-16-le", "strict"), ("utf-16-be", "strict"), ("utf-32-be", "strict"),
+          ("latin-1", "xmlcharrefreplace"), ("ascii", "replace"), ("ascii", "ignore"), ("cp1252", "backslashreplace"),
+          ("utf-16", "strict"), ("utf-32", "strict"), ("utf-8-sig", "strict"))
+# codecs that start the output with a byte-order mark: whether an *empty* text still gets one is not documented, so the
+# dumped bytes are compared after decoding (fixed finding F29: one BOM per piece made the file decode to other text)
+BOM_CODECS = ("utf-16", "utf-32", "utf-8-sig")
 
 _state = {}
 
@@ -105,10 +108,6 @@ def _check_chunks(pieces, chunks, size, where, src):
 def check_case(case):
     templates, main, data = case["templates"], case["main"], case["data"]
     encodings = [tuple(e) for e in case.get("encodings", [["utf-8", "strict"]])]
-    known_ok = case.get("allow_bom", False)
-    for codec, _ in encodings:
-        if codec.lower().replace("_", "-") in [c.replace("_", "-") for c in BOM_CODECS] and not known_ok:
-            raise core.Excluded()  # F29
     src = templates[main]
     senv, aenv = _envs(templates)
     labels = set()
@@ -155,7 +154,9 @@ def check_case(case):
     try:
         os.makedirs(workdir, exist_ok=True)
         for k, (codec, errors) in enumerate(encodings):
-            want = ("ok", ref[1].encode(codec, errors)) if ref[0] == "ok" else ref
+            bom = codec in BOM_CODECS
+            fin = (lambda b: b.decode(codec)) if bom else (lambda b: b)  # noqa: E731
+            want = ("ok", ref[1] if bom else ref[1].encode(codec, errors)) if ref[0] == "ok" else ref
             bufsize = SIZES[(len(src) + k) % len(SIZES)] if k % 2 else None
             path = os.path.join(workdir, "dump-%d.bin" % k)
 
@@ -165,7 +166,7 @@ def check_case(case):
                     s.enable_buffering(bufsize)
                 s.dump(path, encoding=codec, errors=errors)
                 with open(path, "rb") as f:
-                    return f.read()
+                    return fin(f.read())
 
             same("dump(path, encoding=%r, errors=%r, buffer=%r)" % (codec, errors, bufsize), _outcome(to_path), want)
 
@@ -175,7 +176,7 @@ def check_case(case):
                 if not bufsize:
                     s.enable_buffering(SIZES[(len(src) + k) % len(SIZES)])
                 s.dump(fp, encoding=codec, errors=errors)
-                return fp.getvalue()
+                return fin(fp.getvalue())
 
             same("dump(BytesIO, encoding=%r, errors=%r)" % (codec, errors), _outcome(to_bytesio), want)
         path = os.path.join(workdir, "dump-default.bin")
@@ -291,12 +292,6 @@ def check_case(case):
     return core.Outcome(nontrivial, sorted(labels))
 
 
-def check_known(entry):
-    case = dict(entry["case"])
-    case["allow_bom"] = True
-    return check_case(case)
-
-
 # ---------------------------------------------------------------------------------------------------------
 # generators
 
@@ -342,7 +337,7 @@ def _strategies():
                                       ["filt", "join", ["name", "s"], [["str", ""]]], ["int", 7]]))
             prog.insert(draw(st.integers(0, len(prog))), ["out", e])
         d = draw(data())
-        encs = draw(st.lists(st.sampled_from(SAFE_CODECS), min_size=2, max_size=2))
+        encs = draw(st.lists(st.sampled_from(CODECS), min_size=2, max_size=2))
         templates = {}
         small = G.programs(2, 6, errors=False)
         if shape == "plain":
@@ -387,13 +382,17 @@ def _strategies():
     return tsets
 
 
+# development knob (sensitivity runs on a loaded machine); 1 in every registered run
+_SCALE = float(os.environ.get("VERIF_SCALE", "1"))
+
+
 def shards(tier):
     return [{"i": i} for i in range(16)]
 
 
 def run_shard(spec, ctx):
     tsets = _strategies()
-    n = ctx.pick(420, 5600)
+    n = max(16, int(ctx.pick(420, 5600) * _SCALE))
     rec = core.Rec()
     core.hyp_shard(tsets(3, 14), check_case, ctx, n // 2, rec=rec, tag="small")
     if rec.violations:
